@@ -1,8 +1,9 @@
 //! Native confirmation of solver counterexamples through the crate's PUBLIC API only.
 //! This never decides a property; it is run after a solver counterexample to see whether the
 //! misbehaviour is observable on the real build. Output: one JSON object on stdout.
-use cfr::{Game, GameNode, IntoGameNode, PlayerNum, RegretParams, SolveMethod};
+use cfr::{Game, PlayerNum, RegretParams, SolveMethod};
 
+mod ctor;
 mod games;
 use games::*;
 
@@ -142,7 +143,7 @@ fn sampled_multi() -> (usize, Vec<String>) {
                     }));
                     let msg = match res {
                         Err(_) => Some("panicked".to_string()),
-                        Ok((rk, r1)) if !(rk.is_finite()) => Some(format!("regret {rk}")),
+                        Ok((rk, _r1)) if !(rk.is_finite()) => Some(format!("regret {rk}")),
                         Ok((rk, r1)) if rk > 10.0 * r1 + 0.5 => Some(format!("regret {rk:.3} with {k} threads versus {r1:.3} with one")),
                         _ => None,
                     };
@@ -382,6 +383,7 @@ fn main() {
         "c09" => c09(),
         "xdriver" => xdriver(),
         "gs" => gs(),
+        "c11" => ctor::c11(args.get(2).map(|s| s.as_str()).unwrap_or("")),
         "c06" => threads(&[(SolveMethod::Full, true), (SolveMethod::Full, false)]),
         "c07" => {
             let (r1, mut b1) = threads(&[(SolveMethod::Sampled, false)]);
